@@ -152,31 +152,6 @@ def r_rmse(ctx: Ctx, model):
                            f"rmse of a three-point fit is {got}; required {want} - root mean square of the result's residuals over the range of the "
                            f"calculated quantity ({calc}); outcome {outs[:1] if not (outs and outs[0].kind == 'ok') else 'ok'}"),
                nontrivial_key=("fit", calc, "rmse"), sample={"rule": "F-rmse", "rmse": str(got)})
-    # Virial: the statement that assigns self.rmse, evaluated on a three-point residual
-    vfit = model.func("pygaps.modelling.virial.Virial.fit")
-    stores = [st for st in ast.walk(vfit.node) if isinstance(st, ast.Assign) and any(ast.unparse(t) == "self.rmse" for t in st.targets)]
-    ctx.floor("assignments to self.rmse in Virial.fit", len(stores), 1)
-    for st in stores:
-        I = make_interp(model)
-        install_vec(I)
-        I.sympy_mode = True
-        I.ext["numpy.sqrt"] = lambda I, a, k, n: sp.sqrt(a[0])
-        I.ext["numpy.mean"] = lambda I, a, k, n: sum(a[0].items) / len(a[0].items)
-        I.ext["numpy.square"] = lambda I, a, k, n: Vec([x**2 for x in a[0].items]) if isinstance(a[0], Vec) else a[0]**2
-        I.ext["numpy.linalg.norm"] = lambda I, a, k, n: sp.sqrt(sum(x**2 for x in a[0].items))
-        env = {"__module__": vfit.module.name if hasattr(vfit, "module") else "pygaps.modelling.virial",
-               "opt_res": Obj(kind="OptRes", label="res", attrs={"fun": Vec(list(r)), "x": Vec([S("ra")])}),
-               "loading": Vec([S(f"l{i}") for i in range(3)]), "pressure": Vec([S(f"p{i}") for i in range(3)])}
-        try:
-            I.reset([])
-            env = I.module_env(vfit, env) if hasattr(I, "module_env") else env
-            got = I.eval(st.value, env)
-        except Exception as e:  # noqa: BLE001 - reported as an undecidable construct, not as a violation
-            raise AnalysisError(f"Virial.fit: cannot evaluate `{ast.unparse(st.value)}` on a symbolic residual: {e}")
-        want = sp.sqrt(sum(x**2 for x in r) / 3)
-        ctx.ob(isinstance(got, sp.Basic) and sp.simplify(got - want) == 0,
-               Finding("C12.F-rmse", vfit.where, "virial|rmse", f"Virial.fit reports rmse = {got}; required {want} (root mean square of the residual of its fit)"),
-               nontrivial_key=("virial",))
 
 
 def r_virial_objective(ctx: Ctx, model):
@@ -207,7 +182,9 @@ def r_virial_objective(ctx: Ctx, model):
         xv = _np.array([xs[nm_] for nm_ in cap["order"]], dtype=object)
         cap["resid"] = I.call_value(fun, [xv] + list(args), {}, n)
         cap["args"] = args
-        return Obj(kind="OptRes", label="res", attrs={"x": _np.array([xs[nm_] for nm_ in cap["order"]], dtype=object), "fun": _np.array([R(0)] * len(L), dtype=object),
+        nres = len(to_np(I, cap["resid"]))
+        cap["fun"] = [sp.Symbol(f"rr{i}", real=True) for i in range(nres)]
+        return Obj(kind="OptRes", label="res", attrs={"x": _np.array([xs[nm_] for nm_ in cap["order"]], dtype=object), "fun": _np.array(cap["fun"], dtype=object),
                                                       "success": True, "status": sp.Integer(1), "message": "ok", "nfev": sp.Integer(3), "cost": R(0), "optimality": R(0)})
     I.ext["scipy.optimize.least_squares"] = least_squares
     I.ext["numpy.sqrt"] = lambda I, a, k, n: sp.sqrt(a[0])
@@ -218,6 +195,7 @@ def r_virial_objective(ctx: Ctx, model):
                                               "param_bounds": {nm_: (sp.Integer(0), sp.oo) for nm_ in names}, "rmse": sp.nan})
         cap["self"] = o
         I.call_func(vfit, [P.copy(), L.copy(), {nm_: sp.Integer(1) for nm_ in names}], {}, None, self_obj=o)
+        cap["rmse"] = o.attrs.get("rmse")
         return dict(cap)
     outs = I.explore(thunk)
     oks = [o for o in outs if o.kind == "ok" and "resid" in o.value]
@@ -237,6 +215,19 @@ def r_virial_objective(ctx: Ctx, model):
                        f"Virial.fit hands the optimiser the residual {[str(x) for x in (resid.tolist() if isinstance(resid, _np.ndarray) else [resid])][:2]}...; "
                        f"required ln(pressure_x(n_i)/n_i) - ln(p_i/n_i) = {[str(x) for x in want[:2]]}... with the model's own pressure equation (parameters "
                        f"paired by name, order {c.get('order')})"), nontrivial_key=("virial", "objective"))
+
+
+    # the error Virial reports for its fit: root mean square of the residual vector of the returned result (its own, linearised definition)
+    rr = c.get("fun") or []
+    want_rmse = sp.sqrt(sum(x**2 for x in rr) / len(rr)) if rr else None
+    got = c.get("rmse")
+    try:
+        ok = want_rmse is not None and sp.simplify(sp.sympify(got) - want_rmse) == 0
+    except (sp.SympifyError, TypeError):
+        ok = False
+    ctx.ob(ok, Finding("C12.F-rmse", vfit.where, "virial|rmse", f"Virial.fit reports rmse = {got}; required {want_rmse} (root mean square of the "
+                                                               f"{len(rr)} residuals of the optimiser result it took the parameters from)"),
+           nontrivial_key=("virial",))
 
 
 def r_data(ctx: Ctx, model):
